@@ -221,10 +221,23 @@ def h2_case(cid, rng):
     which = rng.choice(["h2", "H2"])
     c = {"id": cid, "kind": "h2", "hn": hn, "hd": hd, "err": None, "which": which}
     try:
+        dom = rng.random() < 0.5
+        if dom:
+            # a model with dominance: the narrow-sense target refers to the variance of the breeding values, the broad-sense
+            # target to the variance of the genotypic values (what the trial records carry)
+            from pybrops.model.gmod.DenseAdditiveDominanceLinearGenomicModel import DenseAdditiveDominanceLinearGenomicModel
+            ph = np.asarray(pg.mat).astype(int)
+            Z = ph[0] + ph[1]; H = (Z == 1).astype(int)
+            ud = np.array([[rng.choice([-2, -1, 1, 2, 3]) for _ in range(T)] for _ in range(p)], dtype=float)
+            gm = DenseAdditiveDominanceLinearGenomicModel(beta=np.asarray(gm.beta, float), u_misc=None, u_a=np.asarray(gm.u_a, float), u_d=ud,
+                                                         trait=np.asarray(gm.trait))
+            gebv = Z @ np.asarray(gm.u_a, float) + np.asarray(gm.beta, float)
+            g = (gebv + H @ ud) if which == "H2" else gebv
+            c["dom"] = True
         prot = G_E_Phenotyping(gm, nenv=1, nrep=1, var_env=0.0, var_rep=0.0, var_err=1.0)
         getattr(prot, "set_" + which)(hn / hd, pg)
         ok = [True]
-        varA = g.astype(float).var(0)          # additive = genotypic for an additive model
+        varA = np.asarray(g, dtype=float).var(0)      # variance of the breeding (h2) / genotypic (H2) values; equal without dominance
         c["varAnn"] = ints(varA * n * n, ok).tolist()
         c["errq"] = ints(np.asarray(prot.var_err, dtype=float) * n * n * hn, ok).tolist(); c["lat"] = ok[0]
     except Exception as ex:
